@@ -503,6 +503,19 @@ func c08Specs(thorough bool) []c08Case {
 			}
 		}
 	}
+	// files that come from the library's own file sources (readers, read-seekers, also ones that stand behind a header
+	// the caller has consumed): the rendering that is digested and the one that is emitted read them one after the other
+	for _, src := range []string{"reader", "readseeker", "buffer", "reader@", "readseeker@", "ttpl"} {
+		for _, menc := range encs {
+			for _, kind := range []int{1, 2} {
+				sp := mb.Msg{Enc: menc, SMIME: kind, Parts: []mb.Part{{Type: "text/plain", Content: c08Texts[0]}},
+					Attach: []mb.File{{Name: "a.bin", Content: c08Bins[3], Source: src}}, Embeds: []mb.File{{Name: "e.txt", Content: c08Texts[2], Source: src}}}
+				cs = append(cs, c08Case{Spec: sp, Renders: 3, Ks: []int{0, 0, 0}, Mod: "file-source"})
+				only := mb.Msg{Enc: menc, SMIME: kind, Attach: []mb.File{{Name: "only.bin", Content: c08Bins[1], Source: src}}}
+				cs = append(cs, c08Case{Spec: only, Renders: 2, Ks: []int{0, 0}, Mod: "file-source"})
+			}
+		}
+	}
 	// body parts whose content type carries parameters, short and long enough for the Content-Type line to need folding
 	for _, ct := range []string{"text/calendar; method=REQUEST", "text/calendar; method=REQUEST; name=\"quarterly-planning-invitation.ics\"",
 		"text/plain; format=flowed; delsp=yes; reply-type=original; x-a-rather-long-parameter-name=with-a-long-value"} {
@@ -524,7 +537,7 @@ func init() {
 	vf.Register(&vf.Check{
 		ID: "C08", Title: "S/MIME signatures verify for every message shape",
 		Run: func(r *vf.Run) {
-			r.SetRule("all 36 part/embed/attachment count combinations (0..3 × 0..2 × 0..2) × message encoding {QP, base64, 8bit} × file encoding {base64, 8bit, QP} with per-part encodings × modifier {none, part/file descriptions, no From, empty To list via ToIgnoreInvalid, generic header without values, two preformatted headers (one multi-line), preformatted headers folded with a bare LF, long folded subject, body parts whose content type carries (long) parameters} × key {ECDSA P-256, RSA-2048, P-384, P-521, a P-256 signer whose serial number equals the intermediate's} × {with, without intermediate certificate} × three consecutive renders × histories {signed from the start; 1–2 unsigned renders, then SignWithKeypair, then render; subject changed between signed renders; a WriteTo into a sink failing after 1/200/600/1500 bytes before each judged render} × middleware {none; one that sets a header / appends a footer to the first body part / adds an attachment on every rendering} × map-iteration start 0..7 on the renders where map order matters, incl. a different order for the signed pre-rendering and the emission inside one WriteTo (switch after n = 1..14 iterations); every output is split by the harness' MIME reader and the PKCS#7 structure is verified by the harness' own CMS verifier (digest of the first part as emitted, signature over the DER SET of signed attributes, embedded certificates, protocol/micalg); distinct by (program, map starts)")
+			r.SetRule("all 36 part/embed/attachment count combinations (0..3 × 0..2 × 0..2) × message encoding {QP, base64, 8bit} × file encoding {base64, 8bit, QP} with per-part encodings × modifier {none, part/file descriptions, no From, empty To list via ToIgnoreInvalid, generic header without values, two preformatted headers (one multi-line), preformatted headers folded with a bare LF, long folded subject, body parts whose content type carries (long) parameters, files from readers / read-seekers / templates (also positioned behind a consumed header)} × key {ECDSA P-256, RSA-2048, P-384, P-521, a P-256 signer whose serial number equals the intermediate's} × {with, without intermediate certificate} × three consecutive renders × histories {signed from the start; 1–2 unsigned renders, then SignWithKeypair, then render; subject changed between signed renders; a WriteTo into a sink failing after 1/200/600/1500 bytes before each judged render} × middleware {none; one that sets a header / appends a footer to the first body part / adds an attachment on every rendering} × map-iteration start 0..7 on the renders where map order matters, incl. a different order for the signed pre-rendering and the emission inside one WriteTo (switch after n = 1..14 iterations); every output is split by the harness' MIME reader and the PKCS#7 structure is verified by the harness' own CMS verifier (digest of the first part as emitted, signature over the DER SET of signed attributes, embedded certificates, protocol/micalg); distinct by (program, map starts)")
 			r.Assume("content is in canonical CRLF form", "cmsverify is validated at start-up against OpenSSL-produced CMS signatures (RSA and ECDSA)")
 			if !mapseam.Enabled {
 				r.Incomplete("runtime map-iteration seam not available: map order is sampled")
